@@ -156,3 +156,15 @@ def run(ctx):
                     ctx.violation("C19:outputs:x-not-finite:" + solver + ":alm", "ALM returned non-finite x after stop", info)
     ctx.coverage["exhaustive"] = not ctx.quick()
     ctx.coverage["injection_runs"] = len(reqs)
+    # whole-loop ties with stop injection: the verified loop models of PANOC / ZeroFPR / PANTR (stop requests at evaluation, callback and
+    # direction-call indices are part of their generators); the C03 relations and the C05 descent clauses are evaluated on every such run
+    from vf.props import PANOC, ZEROFPR, PANTR, C05
+    def on_run(cs, o):
+        if cs.rq.stop_at_eval < 0 and cs.rq.stop_at_cb < 0 and cs.rq.stop_at_dircall < 0:
+            return []
+        out = [(sig.replace("C03:", "C19:outputs:"), msg) for sig, msg in C03.oracle("stop", cs.rq, o)]
+        out += [(sig.replace("C05:", "C19:unvalidated-iterate:"), msg) for sig, msg, _ in C05.oracle(cs.rq, o)]
+        return out
+    PANOC.attach(ctx, extra_oracle=on_run)
+    ZEROFPR.attach(ctx, extra_oracle=on_run)
+    PANTR.attach(ctx, extra_oracle=on_run)
